@@ -151,8 +151,30 @@ def aniso_meshes(seed, n):
     return out
 
 
+def repeated_element_cases():
+    """meshes in which an element is listed twice (same or reversed vertex order): a pillow beside a tetrahedron surface, a two-sided sheet, a
+    triangle listed twice, two tetrahedra on the same four vertices.  The forms are sums over ALL listed elements."""
+    tv, tt = gen.tetra_surface()
+    tv = np.asarray(tv, float) * np.array([1.0, 1.2, 0.9]); tt = np.asarray(tt)
+    pv = np.vstack([tv, tv[:3] + np.array([3.0, 0.1, 0.2])])
+    yield "tri", pv, np.vstack([tt, [[4, 5, 6], [4, 6, 5]]]), "pillow+tetra"
+    yield "tri", pv, np.vstack([tt, [[4, 5, 6], [5, 6, 4]]]), "same-triangle-twice+tetra"
+    gv, gt = gen.grid(2, 2)
+    gv = np.asarray(gv, float); gv[:, 2] = 0.1 * np.sin(gv[:, 0] + 2 * gv[:, 1]); gt = np.asarray(gt)
+    yield "tri", gv, np.vstack([gt, gt[:, ::-1]]), "two-sided-sheet"
+    cv, ct = gen.cube5()
+    cv = np.asarray(cv, float); ct = gen.orient_tets_positive(cv, np.asarray(ct))
+    yield "tet", cv, np.vstack([ct, ct[:1][:, [0, 2, 1, 3]], ct[1:2]]), "tets-listed-twice"
+
+
 def run_stream(drv, stats, seed, n_tri, n_tet, size, failures, name="fem correspondence", dtypes=("f64",)):
     k = 0
+    for kind, rv, rt, rname in repeated_element_cases():
+        for lump in (False, True):
+            err = compare_fem(drv, kind, rv, rt, lump, "f64", "i64")
+            stats.case(core.mesh_key(rv, rt, lump, "rep"), cls=[kind + ":repeated-elements:" + rname, "lump:%s" % lump])
+            if err:
+                failures.append(core.Failure("correspondence", name, "%s %s lump=%s: %s" % (kind, rname, lump, err), case_dict(kind, rv, rt, lump=lump, name=rname)))
     for c in gen.tria_stream(seed, n_tri, size):
         for lump in (False, True):
             dt = dtypes[k % len(dtypes)]
@@ -259,6 +281,9 @@ def huge_meshes():
     ear = np.array([[b, a, len(gv)]])
     gv2 = np.vstack([gv, (gv[a] + gv[b]) / 2 + np.array([0.0, -0.7, 0.1])])
     yield "tri", gv2, np.vstack([gt, ear]), "grid500+ear"
+    pv, pt = gen.grid(256, 128)              # exactly 2^16 triangles
+    pv = np.array(pv, float); pv[:, 2] = 0.2 * np.cos(0.11 * pv[:, 0]) * np.sin(0.13 * pv[:, 1])
+    yield "tri", pv, np.array(pt), "grid256x128"
     cv, ct = gen.cube_grid(45, 45, 45)
     cv = np.array(cv, float); ct = np.array(ct)
     ct = ct[:-1]             # element count not divisible by 2, 3
@@ -302,6 +327,11 @@ def huge_postconditions(which, stats=None):
                 bad = "lumped matrix is not the diagonal of the row sums of the full matrix"
             elif (B.data <= 0).any():
                 bad = "non-positive stored entry"
+            elif kind == "tri" and len(t) <= 100000:
+                with core.quiet():
+                    sa, sl = Solver.fem_tria_mass(cls(v, t), False).astype(float), Solver.fem_tria_mass(cls(v, t), True).astype(float)
+                if abs(sa - B).max() > 1e-12 * abs(B).max() or abs(sl - BL).max() > 1e-12 * abs(BL).max():
+                    bad = "fem_tria_mass differs from the mass matrix of the Solver (rel. %.3g / %.3g)" % (abs(sa - B).max() / abs(B).max(), abs(sl - BL).max() / abs(BL).max())
         else:
             A = full.stiffness.astype(float)
             rows = np.asarray(A.sum(axis=1)).ravel()
